@@ -333,7 +333,7 @@ def run_generated(case):
     n = 0
     samples = []
     hist = []       # every line decoded so far in this process (a witness is replayed after its two predecessors)
-    tricky = ['caf\u00e9 \u2014 \u20ac \u65e5\u672c', ', ', '(', ')', '[', ' -> ', '}', '  -> a#1.b(', '] a@1.b(', 'nil', 'new id ', '', '{x} <1>', ', "', '[0.1]  -> b@2.c(', '#', '@', 'bug #12 @home', ' <7> ', '<conn> ', ' {q} ']
+    tricky = ['caf\u00e9 \u2014 \u20ac \u65e5\u672c', 'total 1,250 EUR', 'rgb(12,34,56) 3.5,7', ', ', '(', ')', '[', ' -> ', '}', '  -> a#1.b(', '] a@1.b(', 'nil', 'new id ', '', '{x} <1>', ', "', '[0.1]  -> b@2.c(', '#', '@', 'bug #12 @home', ' <7> ', '<conn> ', ' {q} ']
     tricky = [t for t in tricky if '"' not in t or True]
     def strprod(i):
         t = tricky[i % len(tricky)].replace('"', "'")
@@ -682,7 +682,7 @@ STREAM_LINES = [
     ('[1000.800] wl_display@1.error(wl_display@1, 2, "x", 4)', (None, False, 'wl_display', 1, 'error', 4)),
     ('[1000.900]  -> wl_display@1.sync2(7, nil)', (None, True, 'wl_display', 1, 'sync2', 2)),
     # string payloads outside ASCII (titles, app ids, clipboard text): the value is the text between the quotes, character for character
-    ('[1001.000]  -> zz_iface@7.set_title("caf\u00e9 \u2014 \u20ac5, \u65e5\u672c\u8a9e \u0416")', (None, True, 'zz_iface', 7, 'set_title', 1, ['caf\u00e9 \u2014 \u20ac5, \u65e5\u672c\u8a9e \u0416'])),
+    ('[1001.000]  -> zz_iface@7.set_title("caf\u00e9 \u2014 \u20ac5, \u65e5\u672c\u8a9e \u0416 1,250 rgb(1,2,3)")', (None, True, 'zz_iface', 7, 'set_title', 1, ['caf\u00e9 \u2014 \u20ac5, \u65e5\u672c\u8a9e \u0416 1,250 rgb(1,2,3)'])),
     # a printed line is longer than the message on the wire (tags, names, quotes): no length a reader may assume bounds it
     ('[1001.100] {Default Queue} <conn7>  -> zz_iface#7.set_surrounding_text("' + 'lorem, ipsum (dolor) ' * 330 + '", 3, 4)', ('conn7', True, 'zz_iface', 7, 'set_surrounding_text', 3, ['lorem, ipsum (dolor) ' * 330])),
 ]
